@@ -59,6 +59,12 @@ type serverConn struct {
 	// last valid ID used as a reference for new IDs
 	lastID uint32
 
+	// goAwayMu orders a GOAWAY against the opening of a stream. The stream
+	// loop opens streams and owns lastID, but the read loop and the timers
+	// send GOAWAY too. Whoever gets here first wins: either the stream is
+	// counted in the GOAWAY's last-stream-id, or it is refused.
+	goAwayMu sync.Mutex
+
 	// client's window
 	// should be int64 because the user can try to overflow it
 	clientWindow int64
@@ -756,6 +762,22 @@ loop:
 					continue
 				}
 
+				if fr.Type() == FrameHeaders {
+					sc.goAwayMu.Lock()
+					closing := isClosing()
+					if !closing {
+						sc.lastID = fr.Stream()
+					}
+					sc.goAwayMu.Unlock()
+
+					// a GOAWAY went out since this frame was picked up, and it
+					// did not count this stream.
+					if closing {
+						sc.writeReset(fr.Stream(), RefusedStreamError)
+						continue
+					}
+				}
+
 				strm = NewStream(fr.Stream(), curInitialWindow)
 				strms = append(strms, strm)
 
@@ -767,7 +789,6 @@ loop:
 				// HEADERS frame and streams that are reserved using PUSH_PROMISE.
 				if fr.Type() == FrameHeaders {
 					openStreams++
-					sc.lastID = fr.Stream()
 				}
 
 				sc.createStream(sc.c, fr.Type(), strm)
@@ -965,19 +986,26 @@ func (sc *serverConn) writeGoAway(strm uint32, code ErrorCode, message string) {
 
 	fr := AcquireFrameHeader()
 
-	ga.SetStream(strm)
+	// The last-stream-id tells the peer which requests it may safely send
+	// again, so it is the highest stream that reached, or will reach, a
+	// handler, whatever stream the error was on (RFC 7540 6.8).
+	sc.goAwayMu.Lock()
+	last := sc.lastID
+
+	if strm != 0 {
+		atomic.StoreUint32(&sc.closeRef, last)
+	}
+
+	atomic.StoreInt32((*int32)(&sc.state), int32(connStateClosed))
+	sc.goAwayMu.Unlock()
+
+	ga.SetStream(last)
 	ga.SetCode(code)
 	ga.SetData([]byte(message))
 
 	fr.SetBody(ga)
 
 	sc.write(fr)
-
-	if strm != 0 {
-		atomic.StoreUint32(&sc.closeRef, sc.lastID)
-	}
-
-	atomic.StoreInt32((*int32)(&sc.state), int32(connStateClosed))
 
 	if sc.debug {
 		sc.logger.Printf(
